@@ -151,6 +151,33 @@ def run(ctx):
               "so the test reports no outcome at all (startTest, stopTest only)", examined=len(runs),
               construct=f"{RUNTEST}:RunTest._got_user_exception::sentinel returned, recorded=Empty, onException not called")
 
+    # an interrupt that arrives inside a MultipleExceptions (as fixtures re-raise what their cleanups raised), at any depth,
+    # from the test or from a cleanup with another cleanup still to run: reported, later stages run, re-raised after stopTest
+    ki = cm.raised("interrupt", "inner")
+    other = cm.raised("error", "other")
+    shapes = (("a member of a MultipleExceptions", lambda o: cm.multi(o, other, ki)),
+              ("a member of a MultipleExceptions inside a MultipleExceptions", lambda o: cm.multi(o, cm.multi("mid", ki), other)),
+              ("nested three deep", lambda o: cm.multi(o, cm.multi("mid", cm.multi("low", other, ki)))))
+    for where in ("test", "cleanup"):
+        for label, make in shapes:
+            script = {"setUp": [("call", "addCleanup", [cm.user("last_cleanup")], []), ("call", "addCleanup", [cm.user("cleanup")], [])], "test": [], "tearDown": [], "cleanup": [], "last_cleanup": []}
+            script[where].append(("raise", make(where)))
+            d, runs = cm.run_case(ctx, script)
+            problems = set()
+            for r in runs:
+                res = [n.split(".", 1)[1] for n in cm.names(r, ("result.",))]
+                if not (r.kind == "exc" and r.value[:2] == ("exc", "KeyboardInterrupt")):
+                    problems.add(f"run() {'returns' if r.kind == 'val' else 'raises ' + repr(r.value)[:80]}; expected the KeyboardInterrupt to propagate")
+                if cm.outcomes(r) != ["addError"]:
+                    problems.add(f"the outcomes reported are {cm.outcomes(r)}; expected one error")
+                if res[-1:] != ["stopTest"]:
+                    problems.add(f"the result receives {res}: stopTest is not the last call")
+                stages = cm.names(r, ("user.",))
+                if stages != ["user.setUp", "user.test", "user.tearDown", "user.cleanup", "user.last_cleanup"]:
+                    problems.add(f"the stages run are {stages}; every later stage and cleanup must still run")
+            ctx.check("R-INTERRUPT-PROPAGATES", f"[the {where} raises a KeyboardInterrupt as {label}] reported as an error, later stages run, re-raised after stopTest", case.node,
+                      bool(runs) and not problems, "; ".join(sorted(problems)) or "no path", examined=len(runs), construct=f"{Q}::interrupt in {where} as {label}")
+
     # the result breaks while the outcome is reported: the bracket is still closed, and the error is not swallowed
     for broken in ("result.addFailure", "result.addSuccess"):
         te = "fail" if broken.endswith("addFailure") else None
